@@ -59,13 +59,19 @@ Opt(dk, s, c, it) ==
                                  lz \in BOOLEAN}
     \cup (IF IsMem(c) /\ it.dir = BUILTIN /\ SrcFile(dk, c).ins = it.ns /\ SrcFile(dk, c).iver = it.ver
           THEN {MemEntry(SrcFile(dk, c), lz) : lz \in BOOLEAN} ELSE {})
+\* the dependent product  { g \in [ns -> ...] : g[n] \in opt[n] }  built directly (filtering the full
+\* function set [ns -> UNION opt] is exponentially slower)
+RECURSIVE Prod(_, _)
+Prod(ns, opt) ==
+    IF ns = {} THEN {EmptyMap}
+    ELSE LET n == CHOOSE x \in ns : TRUE
+         IN UNION {{(n :> v) @@ g : g \in Prod(ns \ {n}, opt)} : v \in opt[n]}
 Cand(dk, s, c, e) ==
     LET items == Rng(e.snap)
         names == {it.ns : it \in items}
     IN IF Cardinality(names) # Len(e.snap) THEN {}          \* a namespace listed twice
        ELSE LET opt == [n \in names |-> Opt(dk, s, c, CHOOSE it \in items : it.ns = n)]
-                all == UNION {opt[n] : n \in names}
-            IN {[path |-> e.spath, L |-> g] : g \in {g \in [names -> all] : \A n \in names : g[n] \in opt[n]}}
+            IN {[path |-> e.spath, L |-> g] : g \in Prod(names, opt)}
 
 Succ(dk, s, c, o, e) == {u \in Cand(dk, s, c, e) : Broken(dk, s, c, o, u) = {}}
 
